@@ -119,7 +119,7 @@ class SimHandle:
         if self._dead or not self._buf:
             return
         data, self._buf = self._buf, b""
-        fault = self.fs._event(self, evname, len(data))
+        fault = self.fs._event(self, evname, len(data), data)
         if fault is not None:
             kind, frac = fault
             if kind == "eio_close":
@@ -248,7 +248,7 @@ class SimFS:
         self.crashed = False
 
     # -- events and faults -----------------------------------------------
-    def _event(self, handle, evname, nbytes):
+    def _event(self, handle, evname, nbytes, data=None):
         """Number an I/O event; returns (kind, frac) for data faults the caller applies,
         raises for open faults and crashes."""
         no = self.event_no
@@ -270,6 +270,9 @@ class SimFS:
         self.fault = None
         self.fired.append((kind, no, evname))
         if kind == "crash":
+            if data and handle is not None and evname in ("flush", "close_flush"):
+                # the process dies while the OS is still writing: a prefix of this flush reaches the file
+                handle._commit(data[: int(len(data) * float(f.get("frac", 0.5)))])
             self.crashed = True
             for h in list(self.open_handles):
                 h._dead = True
